@@ -304,6 +304,12 @@ def w_voice_sync(task):
             b = Burst.from_bits(bitarray(full), BurstTypes.Vocoder)
             out = b.as_bits().to01()
             out2 = Burst.from_bytes(bitarray(full).tobytes(), burst_type=BurstTypes.Vocoder).as_bytes()
+            # a voice-sync burst is recognised by its sync pattern whatever hint the caller gives (default hint, undefined hint)
+            for hint in (None, BurstTypes.Undefined):
+                b3 = Burst.from_bytes(bitarray(full).tobytes()) if hint is None else Burst.from_bits(bitarray(full), hint)
+                if b3.as_bits().to01() != full or not b3.is_vocoder:
+                    acc.violation("voice_sync_burst_altered_with_other_type_hint", {**case, "hint": str(hint)},
+                                  "a voice burst around a voice sync pattern does not survive when parsed with the default / undefined burst type hint")
         except Exception as e:  # noqa: BLE001
             acc.violation("exception_voice_sync:" + exc_sig(e), case, repr(e))
             acc.case()
